@@ -116,6 +116,27 @@ def name_dispatch(F):
     if not ok:
         r.violate("%s | positional dispatch" % fn["path"], F.loc(fn, positional[0]),
                   "set_fn_name decides import-vs-local by `id < imports.num_funcs`: after an import is added (its id is ≥ the old count) or a function is converted, the name is attached through the wrong branch (assert fails or the wrong entity is named)")
+    # the import entry of an imported function is found through the `import_id` its kind records, never by counting:
+    # a helper of `imports` that takes the *function* id locates the entry by position among the function imports, and
+    # position and id part ways once an import was added after local functions or a function was converted
+    n_imp = 0
+    for x in walk(fn["body"]):
+        if x.get("k") == "MethodCall" and (place_path(x["recv"]) or "") == "self.imports":
+            cs = F.by_path.get(x.get("inst") or x.get("callee") or "") or []
+            if len(cs) != 1:
+                continue
+            ptys = [(pm.get("ty") or "") for pm in cs[0].get("params", [])]
+            if not any("String" in t or "str" in t for t in ptys):
+                continue
+            n_imp += 1
+            by_fid = any(t.endswith("FunctionID") for t in ptys)
+            by_iid = any(t.endswith("ImportsID") for t in ptys)
+            okx = by_iid and not by_fid
+            r.ob(okx, {"import entry addressed by": "ImportsID" if okx else ("FunctionID (position among function imports)" if by_fid else "?")})
+            if not okx:
+                r.violate("%s | import entry by function id" % fn["path"], F.loc(fn, x),
+                          "set_fn_name names the import entry through `imports.%s`, which takes the function id and counts function imports to find the entry: after an import is added behind local functions, or a local function is converted to an import, the function's id is not its position among the imports and another import (or none) is named — the recorded `import_id` is the only reliable address" % x["method"])
+    r.count("import_entry_namings", n_imp)
     # the local-name and import-name setters dispatch on kind
     for nm in ("set_local_fn_name", "set_imported_fn_name"):
         f2 = F.one_fn(name=nm, self_adt="Functions")
